@@ -49,15 +49,31 @@ theorem decode_float64 (v : Int) (r : Bytes) (h0 : 0 ≤ v) (h1 : v < 2 ^ 64) :
     decodeCell false tDouble 8 (leBytes 8 v.toNat ++ r) = some (.int v, r) := by
   simp [decodeCell, tTiny, tShort, tInt24, tLong, tLongLong, tFloat, tDouble, decIntLE, readLE_leBytes, signExtend]
   omega
-theorem decode_year (v : Int) (r : Bytes) (h : 1901 ≤ v ∧ v ≤ 2155) :
+theorem decode_year (v : Int) (r : Bytes) (h : v = 0 ∨ (1901 ≤ v ∧ v ≤ 2155)) :
     decodeCell false tYear 0 (encYear v ++ r) = some (.int v, r) := by
-  simp [decodeCell, tTiny, tShort, tInt24, tLong, tLongLong, tFloat, tDouble, tYear, encYear, byteOf_toNat, twos]
-  split <;> omega
+  rcases h with h | h
+  · subst h
+    simp [decodeCell, tTiny, tShort, tInt24, tLong, tLongLong, tFloat, tDouble, tYear, encYear]
+  · have hne : ¬ v = 0 := by omega
+    simp [decodeCell, tTiny, tShort, tInt24, tLong, tLongLong, tFloat, tDouble, tYear, encYear, byteOf_toNat, twos, hne]
+    split <;> omega
 
-/-- dolt's YEAR 0000 is decoded as 2048 -/
-theorem decode_year_zero (r : Bytes) :
-    decodeCell false tYear 0 (encYear 0 ++ r) = some (.int 2048, r) := by
-  simp [decodeCell, tTiny, tShort, tInt24, tLong, tLongLong, tFloat, tDouble, tYear, encYear, byteOf_toNat, twos]
+/-- JSON object key entry (after /repo 22b8e06): offset and 16-bit key length are read back. -/
+theorem readKeyEntry_jsonKeyEntry (large : Bool) (off len : Nat) (r : Bytes)
+    (hoff : off < (if large then 2 ^ 32 else 2 ^ 16)) (hlen : len < 65536) :
+    readKeyEntry large (jsonKeyEntry off len large ++ r) = some ((off, len), r) := by
+  have e : [byteOf len, byteOf (len >>> 8)] = leBytes 2 len := by
+    simp [leBytes, Nat.shiftRight_eq_div_pow]
+  cases large
+  · simp only [Bool.false_eq_true, if_false] at hoff
+    have h1 : off % 2 ^ 32 = off := Nat.mod_eq_of_lt (by omega)
+    simp only [readKeyEntry, jsonKeyEntry, appendForEncoding, Bool.false_eq_true, if_false, e, h1, List.append_assoc,
+      readLE_leBytes]
+    simp [Nat.mod_eq_of_lt (show off < 256 ^ 2 by omega), Nat.mod_eq_of_lt (show len < 256 ^ 2 by omega)]
+  · simp only [if_true] at hoff
+    have h1 : off % 2 ^ 32 = off := Nat.mod_eq_of_lt hoff
+    simp only [readKeyEntry, jsonKeyEntry, appendForEncoding, if_true, e, h1, List.append_assoc, readLE_leBytes]
+    simp [Nat.mod_eq_of_lt (show off < 256 ^ 4 by omega), Nat.mod_eq_of_lt (show len < 256 ^ 2 by omega)]
 
 theorem date_pack (y m d : Nat) (hm : m < 16) (hd : d < 32) :
     (y <<< 9 ||| m <<< 5 ||| d) = y * 512 + m * 32 + d := by
